@@ -2,6 +2,7 @@ import XzVerif.Model.ReadLoop
 import XzVerif.Proofs.ReadLoops
 import XzVerif.Proofs.LazyDec
 import XzVerif.Proofs.Fuel
+import XzVerif.Proofs.LazyDec2
 /-
   C13 — Decoded output is independent of read sizes and source fragmentation; EOF is stable.
 
@@ -30,8 +31,12 @@ import XzVerif.Proofs.Fuel
   * `C13_lazy_errors_agree`: a schedule that ends with an error ends with the batch reader's error class;
   * `C13_lazy_never_no_space` (also C11 / C03): the ring never lacks space for an operation, no length is out of
     range, the copy loop's panic is unreachable.
-  The LZMA2 reader (`Model/LazyDec2.lean`) and the xz reader (`Model/LazyXz.lean`) are modelled at the same level and
-  tied call by call; their refinement proofs are not done (the batch models and the contract model above cover them).
+  **The LZMA2 reader at the same level** (`Model/LazyDec2.lean`: `startChunk` with the regenerated chunk automaton, ONE
+  ring shared by compressed and uncompressed chunks, `Reset()` clearing only the head counter, the uncompressed reader
+  copying in pieces of `Available()`, a lazy decoder per chunk limited to the declared compressed bytes, the stored
+  error) refines the batch LZMA2 reader for every input and schedule: `C13_lazy2_*` (`Proofs/LazyDec2*.lean`,
+  `RingD.lean`: the ring relation after a dictionary reset; 1 800 lines).  The xz reader (`Model/LazyXz.lean`) is
+  modelled and tied call by call; its refinement proof is in progress.
 -/
 namespace Props.C13
 open ReadLoop
@@ -274,5 +279,53 @@ open LazyDec in
 theorem C13_lazy_open_agrees (cfgCap : Nat) (inp : ByteArray) :
     (newReader cfgCap inp).toOption.isSome = !(Lzma1.read (effCap cfgCap) inp).openError :=
   LazyDec.newReader_ok_iff cfgCap inp
+
+/-! ### the lazy LZMA2 reader refines the batch LZMA2 reader (Model/LazyDec2.lean), unconditionally -/
+
+open LazyDec LazyDec2 in
+theorem C13_lazy2_schedule_independent (cfgCap : Nat) (hcap : 4096 ≤ effCap cfgCap) (inp : ByteArray) (lens1 lens2 : List Nat)
+    (h1 : LazyDec.lastStat (LazyDec2.readSeq (newReader2 cfgCap inp) lens1) = .eof)
+    (h2 : LazyDec.lastStat (LazyDec2.readSeq (newReader2 cfgCap inp) lens2) = .eof) :
+    delivered (LazyDec2.readSeq (newReader2 cfgCap inp) lens1) = delivered (LazyDec2.readSeq (newReader2 cfgCap inp) lens2) ∧
+    delivered (LazyDec2.readSeq (newReader2 cfgCap inp) lens1) = (LazyDec2.batch cfgCap inp).1.h.out ∧
+    (LazyDec2.batch cfgCap inp).2 = .eof := by
+  have hf : (LazyDec2.batch cfgCap inp).2 ≠ .err "fuel exhausted" := Fuel.lzma2_decode_fuel _ _ _ _ _
+  have e1 := LazyDec2.eof_complete cfgCap hcap inp lens1 hf h1
+  have e2 := LazyDec2.eof_complete cfgCap hcap inp lens2 hf h2
+  exact ⟨by rw [e1.2, e2.2], e1.2, e1.1⟩
+
+open LazyDec LazyDec2 in
+theorem C13_lazy2_delivered_prefix (cfgCap : Nat) (hcap : 4096 ≤ effCap cfgCap) (inp : ByteArray) (lens : List Nat) :
+    let out := (LazyDec2.batch cfgCap inp).1.h.out
+    (delivered (LazyDec2.readSeq (newReader2 cfgCap inp) lens)).size ≤ out.size ∧
+    delivered (LazyDec2.readSeq (newReader2 cfgCap inp) lens) =
+      out.extract 0 (delivered (LazyDec2.readSeq (newReader2 cfgCap inp) lens)).size :=
+  LazyDec2.delivered_prefix cfgCap hcap inp lens (Fuel.lzma2_decode_fuel _ _ _ _ _)
+
+open LazyDec LazyDec2 in
+theorem C13_lazy2_call_sizes (cfgCap : Nat) (hcap : 4096 ≤ effCap cfgCap) (inp : ByteArray) (lens : List Nat) :
+    (LazyDec2.readSeq (newReader2 cfgCap inp) lens).length ≤ lens.length ∧
+    ∀ i (hi : i < (LazyDec2.readSeq (newReader2 cfgCap inp) lens).length),
+      ((LazyDec2.readSeq (newReader2 cfgCap inp) lens)[i]).1.size ≤ lens[i]! ∧
+      (((LazyDec2.readSeq (newReader2 cfgCap inp) lens)[i]).2 = .ok →
+        ((LazyDec2.readSeq (newReader2 cfgCap inp) lens)[i]).1.size = lens[i]!) :=
+  LazyDec2.call_sizes cfgCap hcap inp lens
+
+open LazyDec LazyDec2 in
+theorem C13_lazy2_reaches_eof (cfgCap : Nat) (hcap : 4096 ≤ effCap cfgCap) (inp : ByteArray) (lens : List Nat)
+    (hclean : (LazyDec2.batch cfgCap inp).2 = .eof) (hsum : (LazyDec2.batch cfgCap inp).1.h.out.size < lens.sum) :
+    LazyDec.lastStat (LazyDec2.readSeq (newReader2 cfgCap inp) lens) = .eof :=
+  LazyDec2.reaches_eof cfgCap hcap inp lens hclean hsum
+
+open LazyDec LazyDec2 in
+theorem C13_lazy2_errors_agree (cfgCap : Nat) (hcap : 4096 ≤ effCap cfgCap) (inp : ByteArray) (lens : List Nat)
+    (e : Err) (he : LazyDec.lastStat (LazyDec2.readSeq (newReader2 cfgCap inp) lens) = .err e) :
+    (LazyDec2.batch cfgCap inp).2.cls = (statusOf e).cls :=
+  LazyDec2.err_agrees cfgCap hcap inp lens (Fuel.lzma2_decode_fuel _ _ _ _ _) e he
+
+open LazyDec LazyDec2 in
+theorem C13_lazy2_never_no_space (cfgCap : Nat) (hcap : 4096 ≤ effCap cfgCap) (inp : ByteArray) (lens : List Nat) :
+    ∀ r ∈ LazyDec2.readSeq (newReader2 cfgCap inp) lens, r.2 ≠ .err .noSpace ∧ r.2 ≠ .err .lenRange ∧ r.2 ≠ .err .panic :=
+  LazyDec2.never_noSpace cfgCap hcap inp lens
 
 end Props.C13
